@@ -59,7 +59,10 @@ def gen(tier, seed, info):
             for op in ("cp", "mv"):
                 n += 1
                 pen = ["-", "f5", "b3B1", "f1u2"][n % 4]
-                yield rbgen.case_line(L, C, bg + ["sv", "pen " + pen, op + " %d %d %d %d %d %d %d %d" % pr, "D", "rs", "D"])
+                # the destination rectangle's own size is ignored by the library (the source's size counts): vary it
+                dh, dw = [(pr[2], pr[3]), (1, 1), (L, C), (pr[2] + 1, max(1, pr[3] - 1))][(n // 2) % 4]
+                pr2 = (pr[0], pr[1], dh, dw) + pr[4:]
+                yield rbgen.case_line(L, C, bg + ["sv", "pen " + pen, op + " %d %d %d %d %d %d %d %d" % pr2, "D", "rs", "D"])
     info["exhaustive"] = True
     info["exhaustive_scope"] = ("every (source rectangle, destination position) pair inside a 2x6 buffer x {cp, mv} x %d prepared contents, "
                                 "nested in a caller save" % len(BACKGROUNDS))
@@ -91,7 +94,8 @@ def gen(tier, seed, info):
                 dt = rnd.randint(-2, L + 1); dl = rnd.randint(-3, C + 2)
             if rnd.random() < 0.04:
                 h, w = rnd.choice([(0, w), (h, 0), (0, 0)])
-            return "%s %d %d %d %d %d %d %d %d" % (rnd.choice(["cp", "cp", "mv"]), dt, dl, h, w, t, l, h, w)
+            dh, dw = (h, w) if rnd.random() < 0.5 else (rnd.randint(0, L + 1), rnd.randint(0, C + 1))
+            return "%s %d %d %d %d %d %d %d %d" % (rnd.choice(["cp", "cp", "mv"]), dt, dl, dh, dw, t, l, h, w)
         nops = rnd.randint(4, 30)
         ops, k = rbgen.gen_program(rnd, L, C, nops, extra=extra, dump_prob=0.05,
                                    style="text-heavy" if rnd.random() < 0.4 else "mixed")
